@@ -178,6 +178,35 @@ fn run_icmp(server: SocketAddr, n: u32, seg: &[usize]) -> Result<Vec<String>, St
     Ok(problems)
 }
 
+/// the configured UDP timeout is the one applied, also when it is shorter than the other timeouts of the settings: a flow
+/// idle for longer than it is released, and a later datagram on the same pair starts a fresh flow (a new outbound socket)
+fn run_expiry(server: SocketAddr, n: u32, idle: Duration) -> Result<Vec<String>, String> {
+    let to = Duration::from_secs(10);
+    let (p1, log1) = echo_server();
+    let mut c = H3Conn::connect(server, &ClientOpts { src_ip: source_ip(n), ..Default::default() }).map_err(|e| format!("handshake: {:?}", e))?;
+    c.body_keep = 1 << 16;
+    let sid = c.request(&request_headers("CONNECT", "_udp2", &[("user-agent", b"verif-harness")]), false)?;
+    if !c.run_until(to, |c| c.streams.get(&sid).map(|s| !s.heads.is_empty() || s.ended()).unwrap_or(false)) || c.stream(sid).status(0) != 200 {
+        return Err(format!("CONNECT _udp2 not answered 200 (status {})", c.stream(sid).status(0)));
+    }
+    let rec = record_in(([10, 0, 0, 1], 4001), ([127, 0, 0, 1], p1), "", b"before the pause");
+    c.send_data(sid, &rec, false, Duration::from_secs(5))?;
+    c.run_until(Duration::from_secs(5), |c| parse_out(&c.streams[&sid].body).map(|r| r.len() >= 1).unwrap_or(false));
+    // idle; the client keeps its connection alive
+    let t0 = Instant::now();
+    while t0.elapsed() < idle { c.linger(Duration::from_millis(100)); c.ping(); }
+    let rec = record_in(([10, 0, 0, 1], 4001), ([127, 0, 0, 1], p1), "", b"after the pause");
+    c.send_data(sid, &rec, false, Duration::from_secs(5))?;
+    c.run_until(Duration::from_secs(5), |c| parse_out(&c.streams[&sid].body).map(|r| r.len() >= 2).unwrap_or(false));
+    let l = log1.lock().unwrap().clone();
+    let mut problems = vec![];
+    if l.len() != 2 { problems.push(format!("the destination received {} of the 2 datagrams", l.len())); }
+    else if l[0].0 == l[1].0 { problems.push(format!("a datagram sent {:?} after the flow's last activity left from the same outbound socket (port {}): the flow was not released after the configured UDP timeout", idle, l[0].0)); }
+    if parse_out(&c.stream(sid).body).map(|r| r.len()).unwrap_or(0) != 2 && problems.is_empty() { problems.push("the two replies did not both come back".into()); }
+    c.close();
+    Ok(problems)
+}
+
 fn main() {
     quiet_panics();
     install_logger();
@@ -216,6 +245,23 @@ fn main() {
                 }
             }
         }
+    }
+    // ---- the configured UDP timeout (shorter than the establishment timeout) on the real CONNECT _udp2 path
+    {
+        let ep_t = start_endpoint(&server_rt, &EndpointOpts { allow_private: true, establishment_timeout: Duration::from_secs(6), udp_timeout: Some(Duration::from_secs(1)), ..Default::default() });
+        let desc = json!({"proto": "h3", "request": "CONNECT _udp2", "udp_connections_timeout_s": 1, "connection_establishment_timeout_s": 6, "idle_s": 2.2});
+        let d2 = desc.clone();
+        watchdog::enter(move || ("udpmux-h3:hang".into(), "scenario did not finish".into(), d2));
+        let r = catch(|| run_expiry(ep_t.addr, 500, Duration::from_millis(2200))).unwrap_or_else(|p| Err(format!("client panic: {}", p)));
+        watchdog::leave();
+        rep.eval();
+        rep.nontrivial("h3udp|expiry");
+        match r {
+            Err(e) => rep.violation_with("udpmux-h3:setup", e, || desc.clone()),
+            Ok(p) if p.is_empty() => rep.count("expiry_runs", 1),
+            Ok(p) => rep.violation_with("udpmux-h3:expiry", p.join("; "), || json!({"scenario": desc, "problems": p})),
+        }
+        ep_t.stop();
     }
     // ---- the ICMP multiplexer over HTTP/3 (raw sockets on lo: needs root, otherwise skipped with a note)
     let ep_icmp = start_endpoint(&server_rt, &EndpointOpts { allow_private: true, establishment_timeout: Duration::from_secs(5), icmp_interface: Some("lo".into()), ..Default::default() });
